@@ -1,13 +1,13 @@
 SPECIFICATION Spec
 CONSTANTS
   Peers = {1, 2}
-  Blocks = {2, 3, 4, 50}
+  Blocks = {2, 3, 50}
   W = 2
   Timeout = 2
   PruneWindow = 20
   SlowWindow = 1
   Deltas = {1, 2}
-  MaxAdv = 2
+  MaxAdv = 3
   Tips = {0, 5}
   InitTC = 32
   MaxTC = 128
